@@ -64,12 +64,14 @@ def run(ctx: Context) -> None:
     ctx.rule("C12b", "initial_state reaches evolution only through .copy(); config parameters are stored only as .copy(); nested programs apply mutators only to instruction.copy()")
     ctx.rule("C12c", "no in-place write on a value that may alias a user parameter object")
     ctx.rule("C12d", "no in-place write on the result object of a memoised function")
+    ctx.rule("C12f", "branches built in a loop do not share one state object (the simulator evolves branch states in place)")
     ctx.rule("C12e", "no exported native kernel writes through a Matrix/Vector that shares its buffer with a numpy argument")
     clause_a(ctx, idx)
     clause_b(ctx, idx, reg)
     clause_b_copies(ctx, idx)
     clause_cd(ctx, idx, reg)
     clause_e(ctx)
+    clause_f(ctx, idx)
 
 
 # ================================================================================================ (a)
@@ -539,3 +541,43 @@ def clause_cd(ctx: Context, idx, reg) -> None:
 
 def clause_e(ctx: Context) -> None:
     cxx.check_buffer_write_through(ctx, "C12e")
+
+
+def clause_f(ctx: Context, idx) -> None:
+    """The simulator applies the next instruction to every branch's state *in place*.  Two branches that hold the same state object are
+    therefore evolved twice.  A `Branch(state=E, ...)` that is built once per iteration of a loop (or comprehension) must get a state
+    that belongs to that iteration: a call result (`.copy()`, a constructor, a projection), something assigned inside the loop body, or an
+    expression that depends on the loop variable.  `None` is exempt."""
+    n = 0
+    for fn in idx.all_functions(include_nested=True):
+        if not fn.module.name.startswith("piquasso."):
+            continue
+        loops = [l for l in walk_no_nested(fn.node) if isinstance(l, (ast.For, ast.ListComp, ast.GeneratorExp))]
+        for b in walk_no_nested(fn.node):
+            if not (isinstance(b, ast.Call) and (dotted(b.func) or "").split(".")[-1] == "Branch"):
+                continue
+            st = next((k.value for k in b.keywords if k.arg == "state"), b.args[0] if b.args else None)
+            if st is None or (isinstance(st, ast.Constant) and st.value is None):
+                continue
+            # innermost enclosing loop
+            encl = [l for l in loops if any(b is x for x in ast.walk(l))]
+            if not encl:
+                continue
+            inner = min(encl, key=lambda l: sum(1 for _ in ast.walk(l)))
+            if isinstance(inner, ast.For):
+                targets = {x.id for x in ast.walk(inner.target) if isinstance(x, ast.Name)}
+                body_assigned = {t.id for s_ in inner.body for a in ast.walk(s_) if isinstance(a, ast.Assign) for t in a.targets if isinstance(t, ast.Name)}
+            else:
+                targets = {x.id for g_ in inner.generators for x in ast.walk(g_.target) if isinstance(x, ast.Name)}
+                body_assigned = set()
+            n += 1
+            names = {x.id for x in ast.walk(st) if isinstance(x, ast.Name)}
+            fresh = isinstance(st, ast.Call) or bool(names & targets) or bool(names & body_assigned)
+            key = f"{fn.qualname}|branch state per iteration|{norm(st)[:50]}"
+            ctx.obligation("C12f", key, fresh, f"{ctx.relpath(fn.file)}:{b.lineno}")
+            if not fresh:
+                ctx.violation("C12f", key, fn.file, b.lineno,
+                              f"`{norm(b)[:80]}` is built once per iteration of the enclosing loop, but its state `{norm(st)[:40]}` is the same object in "
+                              f"every iteration: the simulator evolves branch states in place, so the next gate is applied to the shared state once per "
+                              f"branch", norm(b)[:120])
+    ctx.require_floor("C12f branches built inside loops with a state", n, 4)
